@@ -23,7 +23,8 @@ let vpred_of = function
   | Sexp.L [Sexp.A "istok"; k] -> VPIsTok (kind k)
   | _ -> failwith "vpred"
 
-let fspec_req x = match fspec_of_sexp x with Some f -> f | None -> failwith "filterwith none"
+(* `filterwith none`: the harness installs the filter that keeps every token *)
+let fspec_req x = match fspec_of_sexp x with Some f -> f | None -> FDrop []
 
 let rec_counter = ref 0
 let rref_of (x : Sexp.t) : (nat * rspec) =
